@@ -419,6 +419,7 @@ class Generator:
         self.unit_props = []
         self.uses = []
         self.defines = set()
+        self.lost = []
 
     def source(self, rel):
         if rel not in self.sources:
@@ -552,7 +553,22 @@ class Generator:
         for kid in (fn.known if (fn.mode != 'external_body' and not self.reach) else []):
             variants.append((kid, fn.opts.get('as', fn.name) + '__kf_' + kid))
         for kid, emit_name in variants:
-            self._emit_fn_variant(fn, src, sig, body, body_line0, kid, emit_name, loc)
+            mark = (len(self.out.lines), len(self.fns))
+            try:
+                self._emit_fn_variant(fn, src, sig, body, body_line0, kid, emit_name, loc)
+            except LostAnchor as e:
+                # the function is there but no longer has the shape the contract is anchored in: keep its contract for the
+                # callers (assumed), and report the properties that depend on this function as undecided
+                if fn.part or fn.mode == 'external_body':
+                    raise
+                del self.out.lines[mark[0]:]
+                del self.out.map[mark[0]:]
+                del self.fns[mark[1]:]
+                fn.mode = 'external_body'
+                fn.excluded = True
+                self.lost.append('%s: %s' % (fn.qual, e))
+                if not kid:
+                    self._emit_fn_variant(fn, src, sig, body, body_line0, None, emit_name, loc)
 
     def _emit_fn_variant(self, fn, src, sig, body, body_line0, kid, emit_name, loc):
         out = self.out
